@@ -24,7 +24,7 @@ from .core import Discard, HarnessError
 PROFILE = genir.Profile(name="roundtrip", undef=True, nonfinite=True, permute_blocks=True)
 PROFILE_BIG = genir.Profile(name="roundtrip-big", undef=True, nonfinite=True, permute_blocks=True, max_blocks=12, max_ins=14, max_funcs=4)
 
-FEATURES = ["init", "volatile", "inv", "rot", "copy", "undef", "fexp", "fwd", "uscore", "asm"]
+FEATURES = ["init", "volatile", "inv", "rot", "copy", "undef", "fexp", "fwd", "uscore", "asm", "nameclash"]
 
 
 # ---------------------------------------------------------------------------
@@ -94,6 +94,8 @@ def strip(desc, feature):
                 g["init"] = None
                 changed = True
         return changed
+    if feature in ("nameclash", "uscore", "asm"):
+        return False  # not produced from descriptions / avoided inside shadow_rename
     if feature == "fwd":
         for fd in desc["functions"]:
             if desc_has_forward_use(fd):
@@ -176,7 +178,65 @@ def module_features(m):
                             fs.add("fwd")
     if any(n.startswith("_") for n in names):
         fs.add("uscore")
+    fs |= name_clash_features(m)
     return fs
+
+
+def name_clash_features(m):
+    """'shadow': a function-local value (parameter or instruction) has the name of a module-level value.
+    'nameclash': such a name is ambiguous for a reader that resolves operands by name, innermost scope first,
+    in reading order: the function also refers to the module-level value of that name, or the local value is
+    used (by any instruction, phis included) before its definition in block/instruction order."""
+    from ppci import ir
+
+    fs = set()
+    module_level = {}
+    for x in list(m.externals) + list(m.variables) + list(m.functions):
+        module_level[x.name] = x
+    for f in m.functions:
+        order = {}
+        for bi, b in enumerate(f.blocks):
+            for ii, ins in enumerate(b):
+                order[id(ins)] = (bi, ii)
+        used_globals = set()
+        for b in f.blocks:
+            for ins in b:
+                for u in ins.uses:
+                    if module_level.get(u.name) is u:
+                        used_globals.add(u.name)
+        locals_ = list(f.arguments) + [ins for b in f.blocks for ins in b if isinstance(ins, ir.Value)]
+        for v in locals_:
+            if v.name not in module_level:
+                continue
+            fs.add("shadow")
+            if v.name in used_globals:
+                fs.add("nameclash")
+            if id(v) in order:
+                for user in v.used_by:
+                    if id(user) in order and order[id(user)] < order[id(v)]:
+                        fs.add("nameclash")
+    return fs
+
+
+def uniquify_locals(m):
+    """Give every function-local value that shares its name with a module-level value a fresh name (in place).
+    Returns the number of renamed values."""
+    from ppci import ir
+
+    taken = {x.name for x in list(m.externals) + list(m.variables) + list(m.functions)}
+    n = 0
+    for f in m.functions:
+        locals_ = list(f.arguments) + [ins for b in f.blocks for ins in b if isinstance(ins, ir.Value)]
+        names = {v.name for v in locals_} | {b.name for b in f.blocks}
+        for v in locals_:
+            if v.name in taken:
+                k = 0
+                while "%s_u%d" % (v.name, k) in names or "%s_u%d" % (v.name, k) in taken:
+                    k += 1
+                v.name = "%s_u%d" % (v.name, k)
+                names.add(v.name)
+                n += 1
+    return n
 
 
 # ---------------------------------------------------------------------------
@@ -325,6 +385,24 @@ C_FRAGMENTS = [
         "funcs": [("sv_run", ["i32"])],
     },
     {
+        "id": "shadow_var",
+        "src": "int sh_x;\nint sh_g(int a) { return a + sh_x; }\n"
+        "int sh_f(int sh_x) { sh_x += {K1}; return sh_g(sh_x) + 1; }\nint sh_set(int v) { sh_x = v; return sh_f(v); }\n",
+        "funcs": [("sh_f", ["i32"]), ("sh_set", ["i32"])],
+    },
+    {
+        "id": "shadow_fn",
+        "src": "int sf_g(int a) { return a * 3; }\nint sf_h(int sf_g) { int sf_k = sf_g * 2; return sf_k + {K0}; }\n"
+        "int sf_k(int a, int sf_h) { return a - sf_h + sf_g(a); }\nint sf_ext(int);\nint sf_e(int sf_ext) { return sf_ext + 1; }\n"
+        "int sf_call(int a) { return sf_ext(a) + sf_e(a); }\n",
+        "funcs": [("sf_h", ["i32"]), ("sf_k", ["i32", "i32"]), ("sf_e", ["i32"]), ("sf_call", ["i32"])],
+    },
+    {
+        "id": "tempname",
+        "src": "int tmp;\nint num = {K0};\nint result;\nint tn2_f(int a) { tmp = a + 1; result = tmp * 2; return tmp + num + result; }\n",
+        "funcs": [("tn2_f", ["i32"])],
+    },
+    {
         "id": "asm",
         "src": "int as_f(int a) { asm(\"nop\"); return a + {K0}; }\n",
         "funcs": [("as_f", ["i32"])],
@@ -377,6 +455,120 @@ def warm_fragments():
 # cases
 
 
+# positions of value names per instruction kind: (definition index | None, operand indices, index of an operand list | None)
+_NAME_SLOTS = {
+    "const": (1, (), None),
+    "binop": (1, (3, 5), None),
+    "unop": (1, (4,), None),
+    "cast": (1, (3,), None),
+    "alloc": (1, (), None),
+    "addr": (1, (2,), None),
+    "literal": (1, (), None),
+    "load": (1, (3,), None),
+    "store": (None, (1, 2), None),
+    "copy": (None, (1, 2), None),
+    "call": (1, (3,), 4),
+    "undef": (1, (), None),
+    "phi": (1, (), None),
+    "cjmp": (None, (1, 3), None),
+    "ret": (None, (1,), None),
+    "jmp": (None, (), None),
+    "exit": (None, (), None),
+}
+
+
+def function_names(fd):
+    """(names defined inside the function: parameters and values, names used as operands)"""
+    defined = [p[0] for p in fd["params"]]
+    used = set()
+    for b in fd["blocks"]:
+        for ins in b["ins"]:
+            d, ops, lst = _NAME_SLOTS[ins[0]]
+            if d is not None and ins[d] is not None:
+                defined.append(ins[d])
+            for i in ops:
+                used.add(ins[i])
+            if lst is not None:
+                used.update(ins[lst])
+            if ins[0] == "phi":
+                used.update(ins[3].values())
+    return defined, used
+
+
+def rename_in_function(fd, old, new):
+    """Rename the function-local value `old` (parameter or instruction result) to `new` everywhere in fd."""
+    for p in fd["params"]:
+        if p[0] == old:
+            p[0] = new
+    if old in fd.get("bufs", {}):
+        fd["bufs"][new] = fd["bufs"].pop(old)
+    for b in fd["blocks"]:
+        for ins in b["ins"]:
+            d, ops, lst = _NAME_SLOTS[ins[0]]
+            for i in ((d,) if d is not None else ()) + tuple(ops):
+                if ins[i] == old:
+                    ins[i] = new
+            if lst is not None:
+                ins[lst] = [new if a == old else a for a in ins[lst]]
+            if ins[0] == "phi":
+                for k in ins[3]:
+                    if ins[3][k] == old:
+                        ins[3][k] = new
+
+
+def desc_used_before_definition(fd, name):
+    """Is the local value `name` used (phis included) before its definition in emission order?  Parameters: never."""
+    pos = _layout_pos(fd)
+    dpos = None
+    uses = []
+    for bi, b in enumerate(fd["blocks"]):
+        for ii, ins in enumerate(b["ins"]):
+            d, ops, lst = _NAME_SLOTS[ins[0]]
+            here = (pos[bi], ii)
+            if d is not None and ins[d] == name:
+                dpos = here
+            ns = [ins[i] for i in ops] + (list(ins[lst]) if lst is not None else []) + (list(ins[3].values()) if ins[0] == "phi" else [])
+            if name in ns:
+                uses.append(here)
+    return dpos is not None and any(u < dpos for u in uses)
+
+
+def shadow_rename(desc, draw, avoid_ambiguous=False, on_avoid=None):
+    """With some probability give parameters / local values the name of a module-level value (global variable,
+    function, external) that the function itself does not refer to -- the shape C produces for `int x; int f(int x)`.
+    Names stay unique inside each function, and no name in a function denotes two different objects.
+    Returns the number of renamings."""
+    module_names = [g["name"] for g in desc["globals"]] + [e["name"] for e in desc["externals"]] + [f["name"] for f in desc["functions"]]
+    n = 0
+    for fd in desc["functions"]:
+        if draw(st.integers(0, 99)) >= 40:
+            continue
+        defined, used = function_names(fd)
+        local = set(defined)
+        free = [m for m in module_names if m not in used and m not in local]
+        # parameters first: they are what front ends shadow most, and they live in the function scope before any block
+        cands = [p[0] for p in fd["params"]] + [d for d in defined if d not in {p[0] for p in fd["params"]}]
+        for _ in range(draw(st.integers(1, 3))):
+            if not free or not cands:
+                break
+            tgt = free.pop(draw(st.integers(0, len(free) - 1)))
+            k = draw(st.integers(0, min(len(cands), 6) - 1)) if draw(st.integers(0, 99)) < 60 else draw(st.integers(0, len(cands) - 1))
+            src = cands.pop(k)
+            if avoid_ambiguous and desc_used_before_definition(fd, src):
+                # a reader resolving names in reading order would take the module-level value (open finding)
+                if on_avoid is not None:
+                    on_avoid()
+                continue
+            rename_in_function(fd, src, tgt)
+            n += 1
+    return n
+
+
+def desc_has_shadowing(desc):
+    module_names = {g["name"] for g in desc["globals"]} | {e["name"] for e in desc["externals"]} | {f["name"] for f in desc["functions"]}
+    return any(module_names & set(function_names(fd)[0]) for fd in desc["functions"])
+
+
 def gen_case_strategy(exclude, excluded_counter=None, profile=PROFILE):
     @st.composite
     def _case(draw):
@@ -385,6 +577,13 @@ def gen_case_strategy(exclude, excluded_counter=None, profile=PROFILE):
             if feat in exclude and strip(desc, feat):
                 if excluded_counter is not None:
                     excluded_counter[exclude[feat]] += 1
+
+        def avoided():
+            if excluded_counter is not None:
+                excluded_counter[exclude["nameclash"]] += 1
+
+        # after the strips: they may change the emission order
+        shadow_rename(desc, draw, "nameclash" in exclude, avoided)
         calls = []
         for f in desc["functions"]:
             for _ in range(draw(st.integers(1, 2))):
@@ -537,7 +736,8 @@ def dump_module(m):
                 where = "module"
             else:
                 where = "dangling " + type(v).__name__
-            return [v.name, where, _tyname(v.ty)]
+            # the referent: name, owner (this function / the module / neither), kind of object, type
+            return [v.name, where, type(v).__name__, _tyname(v.ty)]
 
         def bref(b):
             return [b.name, "ok" if id(b) in blocks_of_f else "dangling"]
